@@ -194,7 +194,7 @@ fn final_message_helper(op: u16, amount: u64) {
         assert!(msg[i] == want[i], "helper text = message || coin attributes || domain constant");
         i += 1;
     }
-    kani::cover!(wl > 3 || op == 49);
+    kani::cover!(wl >= 3);
     std::mem::forget(msg);
     std::mem::forget(spend);
 }
@@ -214,8 +214,8 @@ harness_sha!(c05_final_message_other_opcode, 130, { final_message_helper(51, 5) 
 #[kani::unwind(60)]
 #[kani::stub(std::hash::RandomState::new, crate::stubs::fixed_keys)]
 #[kani::stub(std::vec::Vec::reserve, crate::stubs::reserve_stub)]
-#[kani::stub(chia_bls::aggregate_verify, crate::stubs::aggregate_verify_stub)]
-#[kani::stub(chia_bls::BlsCache::aggregate_verify, crate::stubs::cache_aggregate_verify_stub)]
+#[kani::stub(chia_consensus::conditions::aggregate_verify, crate::stubs::aggregate_verify_stub)]
+#[kani::stub(chia_consensus::conditions::BlsCache::aggregate_verify, crate::stubs::cache_aggregate_verify_stub)]
 fn c05_validate_signature_passes_pairs() {
     let mut state = ParseState::default();
     let k0: [u8; 48] = kani::any();
